@@ -147,6 +147,10 @@ type Run struct {
 	Stopped  bool // scheduler must not release anyone any more
 
 	NewChan func() chan struct{} // creates the wake channel (inside the bubble)
+
+	RandKeyed bool   // math/rand draws come from per-goroutine generators keyed by RandKey, not from the tape
+	RandKey   uint64
+	randGen   map[string]*Tape
 }
 
 var active atomic.Pointer[Run]
